@@ -34,8 +34,14 @@ pub fn payload(id: i64, sz: i64, unit: usize) -> String {
     let head = format!("#{},{},", id, sz);
     let fill = (b'a' + (id.rem_euclid(26)) as u8) as char;
     let mut s = head;
+    // every third record is filled with a two-byte character: bytes and characters differ
+    let wide = id.rem_euclid(3) == 1;
     while s.len() < total - 1 {
-        s.push(fill);
+        if wide && s.len() + 2 <= total - 1 {
+            s.push('\u{e9}');
+        } else {
+            s.push(fill);
+        }
     }
     s.push('\n');
     assert_eq!(s.len(), total, "unit too small for header");
@@ -71,9 +77,11 @@ struct ChunkedEncoder;
 impl Encode for ChunkedEncoder {
     fn encode(&self, w: &mut dyn EncWrite, record: &log::Record) -> anyhow::Result<()> {
         let s = record.args().to_string();
-        let cut = s.len() / 3;
-        w.write_all(s[..cut].as_bytes())?;
-        w.write_all(s[cut..].as_bytes())?;
+        // two write calls, cut at a byte position (it may fall inside a character)
+        let b = s.as_bytes();
+        let cut = b.len() / 3;
+        w.write_all(&b[..cut])?;
+        w.write_all(&b[cut..])?;
         Ok(())
     }
 }
